@@ -71,6 +71,43 @@ pub struct Cx<'a> {
     pub prog: &'a Program,
     pub tr: &'a Trace,
     pub ix: &'a Index<'a>,
+    /// L2 (real multi-threaded tokio): only rules that are sound under real time are reported
+    pub mt: bool,
+}
+
+pub const ENGINE_MT: bool = cfg!(all(feature = "mt", not(feature = "l1")));
+
+/// Rules whose verdict is sound on L2 traces: they only use (a) the order of events of one actor task,
+/// (b) "returned before begun" orders of client-boundary stamps taken under the log lock, (c) facts that are
+/// final once observed (a handler ran, a delivery happened), or (d) are guarded by "the actor has completed
+/// stopped()" so that absence of an event is final.  Nothing here uses task-end events (L2 has none), virtual
+/// time, quiescence, or wall-clock upper bounds.
+fn mt_sound(prop: &str, rule: &str, sig: &str) -> bool {
+    match (prop, rule) {
+        ("C01", _) => true,
+        ("C02", "R1" | "R2" | "R3") => true,
+        ("C03", "R1" | "R2" | "R4") => !sig.contains("task_end"),
+        ("C03", "R3") => sig.starts_with("finished_after") || sig.starts_with("handler_after_finished") || sig.starts_with("duplicate") || sig.starts_with("finished_on_plain"),
+        ("C04", "R1" | "R2") => true,
+        ("C04", "R4") => sig.starts_with("early"),
+        ("C05", "R3") => sig.starts_with("upgrade_after_last_drop"),
+        ("C08", "R1") => true,
+        ("C09", "R1" | "R2" | "R3" | "R4") => true,
+        ("C12", "R1" | "R3") => true,
+        ("C13", "R1" | "R3") => !sig.starts_with("unfinished"),
+        ("C16", "R3") => true,
+        ("C17", "R2" | "R3") => true,
+        ("C17", "R1") => sig == "join_some_before_stopped",
+        _ => false,
+    }
+}
+
+fn mt_premise(key: &str) -> bool {
+    const OK: [&str; 24] = [
+        "C01.", "C02.R1", "C02.R2", "C02.R3", "C03.R1", "C03.R2", "C03.R4", "C04.R1", "C04.R2", "C04.R4", "C05.R3.upgrade_after_last_drop", "C08.", "C09.R1", "C09.R2", "C09.R3",
+        "C09.R4", "C12.R1", "C12.R3", "C13.R1", "C13.R3", "C16.R3", "C17.R2", "C17.R3", "C17.R1.join_after_stopped",
+    ];
+    OK.iter().any(|p| key.starts_with(p))
 }
 
 pub fn check(prop: &str, cx: &Cx, rep: &mut Report) {
@@ -97,5 +134,18 @@ pub fn check(prop: &str, cx: &Cx, rep: &mut Report) {
         "C16" => c16::check(cx, rep),
         "C17" => c17::check(cx, rep),
         _ => panic!("no oracle for {prop}"),
+    }
+    if cx.mt {
+        rep.violations.retain(|v| mt_sound(v.prop, v.rule, &v.sig));
+        let keys: Vec<&'static str> = rep.premises.keys().copied().collect();
+        for k in keys {
+            if !mt_premise(k) {
+                rep.premises.remove(k);
+            } else if let Some(n) = rep.premises.remove(k) {
+                // L2 premises are reported under their own names so that L1's required premises stay meaningful
+                let name: &'static str = Box::leak(format!("L2:{k}").into_boxed_str());
+                rep.premises.insert(name, n);
+            }
+        }
     }
 }
